@@ -70,6 +70,9 @@ HasStatus(d, c) ==
   \/ d = "pn533" /\ c \in RegReads \cup {"WriteRegister"}
   \/ d = "rcs956" /\ c = "WriteRegister"
   \/ d = "rcs380" /\ c \in {"InSetRF", "InSetProtocol"}
+\* PN531/PN532/PN533 user manuals, InDataExchange (and TgGetData): status bit 7 = NAD present, bit 6 = MI
+\* (more information), bits 5..0 = error code
+FlagStatus(c) == c = "InDataExchange"
 HasCommStatus(d, c) == d = "rcs380" /\ c \in {"InCommRF", "TgCommRF"}
 RegDomain(c) == IF c = "ReadFIFOLevel" THEN 0..64 ELSE 0..255     \* 64 byte FIFO
 
@@ -156,7 +159,12 @@ Allowed(d, k, at, f) ==
   ELSE
   CASE f.k = "ChipStatus" ->
          IF f.v = 0 THEN {"Data"}
-         ELSE (StatusClass(mode, f.v) \cup StatusClass(mode, f.v % 64)) \cup NoneOk(k)
+         ELSE IF FlagStatus(c)
+              \* bits 7/6 are the NAD / MI flags, the error code is the low six bits: the class follows the
+              \* code whatever the flags are (41h, 81h, C1h are time-outs; 40h, 80h, C0h are successes)
+              THEN StatusClass(mode, f.v % 64) \cup (IF f.v % 64 = 0 THEN {} ELSE NoneOk(k))
+              \* commands without flag bits in the manual: the full byte or its low six bits may decide
+              ELSE (StatusClass(mode, f.v) \cup StatusClass(mode, f.v % 64)) \cup NoneOk(k)
     [] f.k = "CommStatus" ->
          IF f.v = 0 THEN {"Data"}
          ELSE UNION {FlagClass(mode, fl) : fl \in FlagsOf(f.v)} \cup NoneOk(k)
@@ -205,6 +213,8 @@ CaseOk(cs) ==
      /\ (Benign(cs.d, cs.k, cs.at, cs.f) => a = {"Data"})
      /\ (fin /\ cs.f.k \in HostBroken => "Data" \notin a)
      /\ (fin /\ cs.f = F("ChipStatus", 1) /\ Mode(cs.k) = "initiator" => a = {"Timeout"})
+     /\ (fin /\ cs.f.k = "ChipStatus" /\ FlagStatus(Cmds(cs.d, cs.k)[cs.at])
+           => a = StatusClass(Mode(cs.k), cs.f.v % 64) \cup (IF cs.f.v % 64 = 0 THEN {} ELSE NoneOk(cs.k)))
 TableOk == pc = "idle" => \A cs \in Cases : CaseOk(cs)
 
 \* reachability witnesses (each must be violated)
